@@ -75,7 +75,7 @@ StepTick(e) ==
   /\ e.ev = "Tick"
   /\ lastTick' = [lastTick EXCEPT ![e.node] = [round |-> e.round, cause |-> "tick"]]
   \* ticker.go: a tick carries the round of the clock
-  /\ alarms' = alarms \cup If(e.round # RoundAt(e.clock), {Alarm("TickRound", e, "tick round is not the clock's round")})
+  /\ alarms' = alarms \cup If(e.round > RoundAt(e.clock), {Alarm("TickRound", e, "tick carries a round beyond the clock")})
   /\ Keep(<<cfg, clk, store, got, signed, epochOf, epochs, upN, healedAt>>)
 
 \* C04: an honest partial for round r leaves the node only at or after TimeOf(r).
@@ -194,7 +194,7 @@ StepQuiesce(e) ==
   /\ e.ev = "Quiesce"
   /\ LET ups == {n \in 0..(cfg.n - 1) : e.up[n + 1]}
          minClk == IF ups = {} THEN 0 ELSE CHOOSE c \in {e.clocks[n + 1] : n \in ups} : \A m \in ups : c <= e.clocks[m + 1]
-         due == RoundAt(minClk)
+         due == RoundAt(minClk - Period)   \* tickers may be out of phase by less than one period
          live == e.live
          A1 == If(live /\ Cardinality(ups) >= cfg.t /\ \E n \in ups : e.heads[n + 1] < due,
                   {Alarm("NoProgress", e, e.label)})
